@@ -1,9 +1,9 @@
 (* C09 — Full-sync responses are complete, causally ordered and size-bounded.
    Only property theorems (closed by [exact]), non-vacuity examples and Print Assumptions.
-   Model: Model/LoadIter.v (NextBatch in its repaired form, fixes/C09-batch-heads.patch); proofs: Proofs/LoadIter.v. *)
+   Model: Model/LoadIter.v (NextBatch in its repaired form, fixes/C09-batch-heads.patch); proofs: Proofs/LoadIter.v, Proofs/LoadIterHeads.v. *)
 From Coq Require Import List NArith Bool Arith.
 Import ListNotations.
-From AnySync Require Import Lib.Dag Model.Dfs Model.Tree Model.LoadIter Proofs.LoadIter.
+From AnySync Require Import Lib.Dag Model.Dfs Model.Tree Model.LoadIter Proofs.LoadIter Proofs.LoadIterHeads Proofs.DfsTopo.
 Open Scope N_scope.
 
 (* The batches, concatenated, are EXACTLY the responder's stored sequence from the common snapshot on with the
@@ -57,23 +57,63 @@ Theorem c09_empty_request_full : forall sigma ourPath maxSize bs,
 Proof. exact respond_empty_request. Qed.
 Print Assumptions c09_empty_request_full.
 
-(* PARTIAL (heads).  Proved: each batch's announced heads are the fold of the head-update step over exactly the
+(* Heads, step 1: each batch's announced heads are the fold of the head-update step over exactly the
    stored changes processed for it, continuing from the heads announced with the previous batch (initially the
-   common snapshot) — i.e. the heads are accumulated over everything processed so far, not per batch.
-   Not proved: that this fold equals [heads_of] (the childless members) of the processed prefix when the stored
-   order is a linear extension without repeats; spec_C09 checks exactly that equality on every observed batch. *)
-Theorem c09_heads_accumulate_partial : forall maxSize l b l',
+   common snapshot) — i.e. the heads are accumulated over everything processed so far, not per batch. *)
+Theorem c09_heads_accumulate : forall maxSize l b l',
   li_exhausted l = false -> next_batch maxSize l = (b, l') ->
   exists used, li_rest l = used ++ li_rest l'
     /\ b_heads b = fold_left upd_heads (map se_ch used) (li_lastHeads l)
     /\ li_lastHeads l' = b_heads b.
 Proof. exact next_batch_heads. Qed.
-Print Assumptions c09_heads_accumulate_partial.
+Print Assumptions c09_heads_accumulate.
+
+(* Heads, step 2: that fold IS the declarative [heads_of] (the childless members, as used by spec_C09) of the
+   processed sequence whenever the sequence is a linear extension without repeats. *)
+Theorem c09_heads_fold_is_childless : forall q,
+  lin_changes q -> isort (fold_left upd_heads q []) = heads_of q.
+Proof. exact heads_fold_childless. Qed.
+Print Assumptions c09_heads_fold_is_childless.
+
+(* Heads: if the stored range from the common snapshot on has pairwise different ids, is a linear extension (C06)
+   and no change cites itself, then every response is a [heads_trace]: each batch consists of the not-removed
+   entries of a further stretch of the stored range and announces exactly the childless members of the stored
+   prefix processed so far (up to just before the first change of the next batch); after the last batch nothing is
+   left, so the last batch announces the childless members of the whole range — the responder's heads. *)
+Theorem c09_heads_childless : forall sigma ourPath theirPath theirHeads maxSize bs cs,
+  respond sigma ourPath theirPath theirHeads maxSize = Some bs ->
+  choose_snapshot ourPath theirPath = Some cs ->
+  NoDup (map se_id (from_id cs sigma)) -> lin_ext (from_id cs sigma) ->
+  (forall e, In e (from_id cs sigma) -> ~ In (se_id e) (cprev (se_ch e))) ->
+  heads_trace (removed_of sigma cs theirHeads) (from_id cs sigma) [] bs.
+Proof. exact respond_heads_childless. Qed.
+Print Assumptions c09_heads_childless.
+
+Theorem c09_last_batch_announces_responder_heads : forall rem view pre bs d,
+  heads_trace rem view pre bs -> bs <> [] -> isort (b_heads (last bs d)) = heads_of (map se_ch view).
+Proof. exact heads_trace_last. Qed.
+Print Assumptions c09_last_batch_announces_responder_heads.
+
+(* Bridge to C06.  C06 models (and compares on every step) the stored order of a replica as the canonical order of its
+   stored set.  A stored sequence that IS that order of an acyclic set — previous ids of the root change outside it — has
+   pairwise different ids and is a linear extension: the hypotheses of c09_causal and c09_heads_childless.  (What is not
+   modelled is that the lexid order ids assigned by the object tree realise this order; the script worlds of the harness
+   exercise it.) *)
+Theorem c09_canonical_store_is_causal : forall S root rk sigma,
+  acyclic_by rk (view S root) ->
+  map se_id sigma = order S root ->
+  (forall e, In e sigma -> se_id e <> root -> In (se_ch e) (view S root)) ->
+  (forall e p, In e sigma -> se_id e = root -> In p (cprev (se_ch e)) -> ~ In p (order S root)) ->
+  NoDup (map se_id sigma) /\ lin_ext sigma.
+Proof. exact canonical_store_lin_ext. Qed.
+Print Assumptions c09_canonical_store_is_causal.
 
 (* PARTIAL (model meets spec).  The full statement
      forall G sigma ourPath theirPath theirHeads haveB maxSize finalB, honest inputs ->
        spec_C09 G sigma ... (ids and heads of (respond ...)) finalB = true
-   needs c09_heads (above gap), the linear-extension property of the stored order (C06, not proved there) and the
+   needs the linear-extension property of the STORED order (hypothesis of c09_causal / c09_heads_childless; C06 proves it
+   for the canonical order of an acyclic set, c06_topological, but the lexid order ids that realise the stored order are
+   not modelled), the translation of the Prop-level statements above into the executable conjuncts of spec_C09, and the
    requester-side apply (C01).  Proved instead: the declarative components above, and the closed instance below. *)
 
 (* ---- non-vacuity and the legacy behaviour (finding F16): tree 1 -> 2, 1 -> 3 -> 4, limit 150 ---- *)
@@ -88,6 +128,23 @@ Example c09_nonvacuous :
   spec_C09 f16_G f16_sigma [1] [1] [1] [1] 150 (obs_of_batches (respond f16_sigma [1] [1] [1] 150)) [1; 2; 3; 4] = true /\
   lin_ext f16_sigma = lin_ext f16_sigma.
 Proof. vm_compute. repeat split. Qed.
+
+(* the hypotheses of c09_heads_childless hold on the example, and its conclusion is what the example shows *)
+Example c09_heads_nonvacuous :
+  NoDup (map se_id (from_id 1 f16_sigma)) /\ lin_ext (from_id 1 f16_sigma) /\
+  (forall e, In e (from_id 1 f16_sigma) -> ~ In (se_id e) (cprev (se_ch e))) /\
+  heads_of (map se_ch (from_id 1 f16_sigma)) = [2; 4].
+Proof.
+  split; [|split; [|split]].
+  - vm_compute. repeat constructor; cbn; intuition discriminate.
+  - replace (from_id 1 f16_sigma) with f16_sigma by (vm_compute; reflexivity). unfold f16_sigma.
+    intros l1 e l2 Heq p Hp Hin.
+    repeat (destruct l1 as [|? l1]; cbn [app] in Heq;
+            [inversion Heq; subst; vm_compute in Hp, Hin; intuition (subst; discriminate)|
+             inversion Heq as [[Hx Heq']]; clear Heq Hx; rename Heq' into Heq]).
+  - intros e He. vm_compute in He. repeat (destruct He as [He|He]; [subst e; vm_compute; intuition discriminate|]). destruct He.
+  - vm_compute. reflexivity.
+Qed.
 
 (* the code as found announces [2] [3] [4]: the last batch does not announce the responder's heads [2;4] *)
 Example c09_heads_legacy_refuted :
